@@ -91,6 +91,9 @@ type world struct {
 	faultFree  bool
 	fair       bool // C04 workload shape
 	sequential bool
+	// demux: routers registered with the DemultiplexingActionRouter.
+	demux   []demuxEntry
+	demuxOn bool
 	// timePressure weights clock advances against actor progress.
 	timePressure int
 }
@@ -172,6 +175,38 @@ func (mnemonicKeyExtractor) ExtractKey(ctx context.Context, requestMetadata *rem
 		return "", err
 	}
 	return invocation.NewKey(id)
+}
+
+type demuxEntry struct {
+	prefix, platform, marker string
+}
+
+// constKeyExtractor yields a constant invocation key.
+type constKeyExtractor struct{ value string }
+
+func (e constKeyExtractor) ExtractKey(ctx context.Context, requestMetadata *remoteexecution.RequestMetadata) (invocation.Key, error) {
+	id, err := anypb.New(wrapperspb.String(e.value))
+	if err != nil {
+		return "", err
+	}
+	return invocation.NewKey(id)
+}
+
+// expectedRouterMarker: the router registered under the longest instance
+// name prefix with an equal platform handles the request ("" = default).
+func (w *world) expectedRouterMarker(instance, platformStr string) string {
+	best, marker := -1, ""
+	for _, e := range w.demux {
+		if e.platform != platformStr {
+			continue
+		}
+		if e.prefix == "" || instance == e.prefix || strings.HasPrefix(instance, e.prefix+"/") {
+			if len(e.prefix) > best {
+				best, marker = len(e.prefix), e.marker
+			}
+		}
+	}
+	return marker
 }
 
 // --- setup -------------------------------------------------------------------
@@ -292,11 +327,34 @@ func newWorld(r *simrun.Run, prop string) *world {
 	}
 
 	w.analyzer = newScriptedAnalyzer(w)
-	router := routing.NewSimpleActionRouter(
-		platform.ActionKeyExtractor,
-		[]invocation.KeyExtractor{invocation.CorrelatedInvocationsIDKeyExtractor, invocation.ToolInvocationIDKeyExtractor, mnemonicKeyExtractor{}},
-		w.analyzer,
-	)
+	baseExtractors := []invocation.KeyExtractor{invocation.CorrelatedInvocationsIDKeyExtractor, invocation.ToolInvocationIDKeyExtractor, mnemonicKeyExtractor{}}
+	var router routing.ActionRouter = routing.NewSimpleActionRouter(platform.ActionKeyExtractor, baseExtractors, w.analyzer)
+	if !w.fair && t.Bool(1, 2) {
+		// Half of the runs route through the real DemultiplexingActionRouter:
+		// 1-3 (prefix, platform) pairs get a router of their own that marks
+		// its requests with a constant first invocation key, so that the
+		// oracle can tell which router handled a request.
+		demux := routing.NewDemultiplexingActionRouter(platform.ActionKeyExtractor, router)
+		n := 1 + t.Choice(3)
+		seenR := map[string]bool{}
+		for i := 0; i < n; i++ {
+			prefix, plat := pick(t, prefixes), pick(t, platforms)
+			ps := platformKeyString(plat)
+			if seenR[prefix+"|"+ps] {
+				continue
+			}
+			seenR[prefix+"|"+ps] = true
+			marker := fmt.Sprintf("router:%d", len(w.demux))
+			sub := routing.NewSimpleActionRouter(platform.ActionKeyExtractor, append([]invocation.KeyExtractor{constKeyExtractor{marker}}, baseExtractors...), w.analyzer)
+			if err := demux.RegisterActionRouter(mustInstanceName(prefix), plat, sub); err != nil {
+				panic(simsync.HarnessError{Msg: "RegisterActionRouter: " + err.Error()})
+			}
+			w.demux = append(w.demux, demuxEntry{prefix: prefix, platform: ps, marker: marker})
+			r.Logf("demultiplexing router %s for prefix=%q platform=%s", marker, prefix, ps)
+		}
+		w.demuxOn = true
+		router = demux
+	}
 	w.bq = scheduler.NewInMemoryBuildQueue(
 		&fakeCAS{w}, w.clock, w.newUUID, &w.cfg, 1<<20, router,
 		&simAuthorizer{w, "exec"}, &simAuthorizer{w, "drain"}, &simAuthorizer{w, "kill"}, &simAuthorizer{w, "sync"},
